@@ -140,7 +140,7 @@ mod c12 {
     // TIER: quick
     // KIND: complete
     #[kani::proof]
-    fn c12_d9_icd_advance_counter_store_failure() {
+    fn c12_kf_icd_advance_counter_store_failure() {
         let (c, epoch) = any_counter();
         let icd = Icd::new(c, mode());
         let d0 = boundary(&icd);
@@ -167,7 +167,7 @@ mod c12 {
     // TIER: quick
     // KIND: complete
     #[kani::proof]
-    fn c12_d9_icd_value_used_beyond_durable_after_failed_store() {
+    fn c12_kf_icd_value_used_beyond_durable_after_failed_store() {
         let (c, epoch) = any_counter();
         kani::assume(epoch >= 2);
         let icd = Icd::new(c, mode());
